@@ -465,10 +465,11 @@ static void run_bits(const Case& c) {
         bool threw = false;
         try {
           w.truncate(arg);
-        } catch (const std::logic_error&) {
+        } catch (const std::exception&) {
+          // (the class of the exception that reports an attempt to extend is not part of the statement)
           threw = true;
         }
-        VCHECK(threw, "truncate-extends", "truncate(", arg, ") on ", bits.size(), " bits did not throw logic_error");
+        VCHECK(threw, "truncate-extends", "truncate(", arg, ") on ", bits.size(), " bits did not throw");
       } else {
         w.truncate(arg);
         bits.resize(arg);
@@ -506,10 +507,10 @@ static void run_bits(const Case& c) {
     bool threw = false;
     try {
       r.truncate(bits.size() + 1);
-    } catch (const std::invalid_argument&) {
+    } catch (const std::exception&) {
       threw = true;
     }
-    VCHECK(threw && r.size() == bits.size(), "reader-truncate-extends", "truncate beyond the size did not throw invalid_argument");
+    VCHECK(threw && r.size() == bits.size(), "reader-truncate-extends", "truncate beyond the size did not throw");
   }
   size_t cur = 0, total = bits.size();
   unsigned reads = 0;
@@ -522,10 +523,10 @@ static void run_bits(const Case& c) {
         bool threw = false;
         try {
           r.read(size, adv);
-        } catch (const std::logic_error&) {
+        } catch (const std::exception&) {
           threw = true;
         }
-        VCHECK(threw && r.where() == cur, "read-over-64", "read(", size, ") did not throw logic_error");
+        VCHECK(threw && r.where() == cur, "read-over-64", "read(", size, ") did not throw");
         continue;
       }
       if (size > total - cur) size = total - cur;
